@@ -3,6 +3,7 @@ CONSTANTS
   Threads <- T2
   Keys <- K3
   DirectKeys = {}
+  MaxRepeats = 2
   DepsOpts <- G_q
   LoadsOpts <- W2_1q
   SharedOpts = {TRUE, FALSE}
